@@ -418,9 +418,12 @@ var verifRenameShapes = []string{
 	"x=function(a){class A{static{let e=1;g(e,a)}}};",
 	"x=function(a){class A{m(e){return e+a}}return A};",
 	"x=function(a){while(a){if(a){break}else{const e=1;g(e,a)}}};",
+	"{let foolong=1;with(o){g(foolong)}}",
+	"with(o){let xlong=1;g(xlong)}",
+	"{let foolong=1;{let barlong=2;with(o){g(foolong,barlong)}}}",
 }
 
-// VerifJSRenameShapes: 13 scope shapes x 4 target versions.
+// VerifJSRenameShapes: 16 scope shapes (the last three: `with` at the top level) x 4 target versions.
 func VerifJSRenameShapes(n int) {
 	src := []byte(verifRenameShapes[vChoice("shape", len(verifRenameShapes))])
 	version := []int{0, 2018, 2015, 2020}[vChoice("version", 4)]
